@@ -12,9 +12,7 @@ Definition byte_bit (b : N) (i : nat) : bool := N.testbit b (N.of_nat i).
 Definition shape_of_bytes (n : nat) (bytes : list N) : shape :=
   map (fun k => byte_bit (nth (k / 8) bytes 0%N) (k mod 8)) (seq 0 n).
 
-Definition bytes_of_shape (sh : shape) : list N :=
-  map (fun j => fold_right (fun i acc => (if nth (8 * j + i) sh false then N.shiftl 1 (N.of_nat i) else 0) + acc)%N 0%N (seq 0 8))
-      (seq 0 ((length sh + 7) / 8)).
+(* [bytes_of_shape] lives in Base.v: the archetype table's clear order compares identifiers by their bytes *)
 
 (** The check as the code writes it — regenerated from the source (Gen/Bytes.v): guard, which
     byte, which shift amount, and the u8 test itself. *)
